@@ -311,6 +311,10 @@ def check_lossy_binding(ctx, rep, T, be, fns, binds, lossy_occ, chars):
             if ct and ct[1] in chars and vt.show(ct[0]).endswith('id.renamed'):
                 rep.ok('K3', key + ':per-field', f'binding item built under the dash test on this field ({vt.show(ct[0])})', site)
                 continue
+            coll = exists_char_test(tv, chars)
+            if coll:
+                rep.ok('K3', key + ':exists', f'binding emitted iff ∃ field of {coll} whose key contains {sorted(chars)}', site)
+                continue
             # accumulated flag: must be monotone (only ever set to true under the trigger) and start false
             flag = tv0.get('name') if isinstance(tv0, dict) and tv0.get('k') == 'var' else None
             if flag is None and isinstance(tv, dict) and tv.get('k') == 'cond' and tv.get('merge'):
